@@ -329,7 +329,7 @@ Proof.
   assert (Hx : hd 0 c < length g).
   { assert (Hy : exists y, edge g (hd 0 c) y).
     { pose proof (clos_trans_t1n _ _ _ _ Hr) as Hr1.
-      inversion Hr1 as [y H1 | y z H1 _]; exists y; exact H1. }
+      inversion Hr1 as [y H1 | y z H1 _]; eexists; exact H1. }
     destruct Hy as [y Hy]. exact (deps_lt g _ y Hy). }
   apply (post_acyclic g cs (hd 0 c) Hpcs); [| exact Hr].
   apply Hall. eapply Permutation_in; [apply Permutation_sym; exact Hperm |].
